@@ -422,6 +422,51 @@ def source_to_value(cmd, src, default, cwd_is_target=False):
     return disc_value(cmd, disc_id(where, src[1], "pyscn" if src[2] == "KPyscn" else "pyproject"))
 
 
+def py_nearest(states):
+    for i, st in enumerate(states):
+        if st in ("pyscn", "both", "pyscn+plain"):
+            return (i, "KPyscn")
+        if st == "tool":
+            return (i, "KPyproject")
+    return None
+
+
+def py_f24(states):
+    n = py_nearest(states)
+    return bool(n and n[1] == "KPyproject" and any(st in ("pyscn", "both", "pyscn+plain") for st in states[n[0] + 1:]))
+
+
+def py_find_code(states):
+    """what the two-pass search of the code returns (only used to know which chain the F24 exclusion applies to)."""
+    for i, st in enumerate(states):
+        if st in ("pyscn", "both", "pyscn+plain"):
+            return (i, "KPyscn")
+    for i, st in enumerate(states):
+        if st in ("tool", "both"):
+            return (i, "KPyproject")
+    return None
+
+
+def py_spec_resolve(case):
+    """The property text: --config wins; else nearest file at/above the target (.pyscn.toml first within a directory);
+    else what is discoverable from the working directory; returns (source, F24 layout searched)."""
+    ex = case["explicit"]
+    cwd = case["cwd"] if case["cwd"] is not None else case["target"]
+    if ex == "file":
+        return ("SExplicit", 0), False
+    if ex == "missing":
+        return "SError", False
+    first, tag = (case["target"], "SFromTarget") if ex is None else (ex, "SFromExplicitDir")
+    f24 = py_f24(first) or (py_find_code(first) is None and py_f24(cwd))
+    n = py_nearest(first)
+    if n:
+        return (tag, n[0], n[1]), f24
+    n = py_nearest(cwd)
+    if n:
+        return ("SFromCwd", n[0], n[1]), f24
+    return "SDefaults", f24
+
+
 def discovery_cases(rng, thorough):
     cs = []
     four = ["none", "pyscn", "tool", "both"]
@@ -602,7 +647,7 @@ def main(tier):
 
     # ---- model and spec in Coq -------------------------------------------------------------------
     omodel = dmodel = defaults = None
-    if not any(f.startswith(("Cli/Config", "Cli/Discovery", "Cli/Gate.v", "Gen/")) for f in getattr(ck, "failed_files", [])):
+    if not any(f in ("Cli/Config.v", "Cli/ConfigRun.v", "Cli/Discovery.v", "Cli/Gate.v") or f.startswith("Gen/") for f in getattr(ck, "failed_files", [])):
         try:
             jobs = []
             shard = 150
@@ -653,9 +698,13 @@ def main(tier):
         if opt.cmd == "analyze" and impl["obs"] is None:
             ck.violation("pyscn analyze wrote no report for option case %s" % opt.name, replay)
             continue
-        if omodel is None:
-            continue
-        mval, sval = pyval(opt, omodel[idx][0]), pyval(opt, omodel[idx][1])
+        # the specification, read directly off the property text (and cross-checked with [eff] evaluated in Coq)
+        sval = fl if fl is not None else (kv if kv is not None else opt.default)
+        mval = None
+        if omodel is not None:
+            mval, sval_coq = pyval(opt, omodel[idx][0]), pyval(opt, omodel[idx][1])
+            if sval_coq != sval:
+                ck.broken_ties.append("eff (Coq) = %s but the property text read in Python gives %s for %s flag=%s file=%s" % (sval_coq, sval, opt.name, fl, kv))
         replay["model"], replay["spec"] = str(mval), str(sval)
         # the property's domain for check --max-complexity: file values <= 0 are the documented "no limit"/unset marker
         spec_value = sval
@@ -672,7 +721,7 @@ def main(tier):
         if bad:
             tags = {"part": "option", "option": opt.name.split("[")[0], "flag": fcell, "key": kcell}
             e = ck.match_known(tags)
-            if e and echo == mval:
+            if e and (mval is None or echo == mval):
                 n_known += 1
                 ck.known_finding(e)
             else:
@@ -680,6 +729,8 @@ def main(tier):
                 if n_spec_bad <= 6:
                     ck.violation("%s: flag %s, %s = %s (%s): %s" % (opt.name, replay["flag"], replay["file_key"], replay["file_value"], style, bad), replay)
         # tie: implementation vs code model
+        if mval is None:
+            continue
         if echo_known and echo != mval:
             n_tie_bad += 1
             msg = "%s flag=%s file=%s: pyscn uses %s, model Cli/Config.v says %s" % (opt.name, replay["flag"], replay["file_value"], echo, mval)
@@ -698,11 +749,16 @@ def main(tier):
         default = 0 if case["cmd"] == "analyze" else 10
         replay = {"case": case, "argv": impl["argv"], "cwd": impl["cwd"], "exit": impl["rc"], "echo": impl["got"], "config_values": impl["ids"],
                   "stderr": impl["stderr"]}
-        if dmodel is None:
-            continue
-        msrc, ssrc, f24 = dmodel[idx]
         cit = case["cwd"] is None
-        mv, sv = source_to_value(case["cmd"], msrc, default, cit), source_to_value(case["cmd"], ssrc, default, cit)
+        ssrc, f24 = py_spec_resolve(case)
+        sv = source_to_value(case["cmd"], ssrc, default, cit)
+        msrc, mv = None, None
+        if dmodel is not None:
+            msrc, ssrc_coq, f24_coq = dmodel[idx]
+            mv = source_to_value(case["cmd"], msrc, default, cit)
+            if source_to_value(case["cmd"], ssrc_coq, default, cit) != sv or f24_coq != f24:
+                ck.broken_ties.append("spec_resolve (Coq) = %s / f24 %s but the property text read in Python gives %s / %s on %s"
+                                      % (ssrc_coq, f24_coq, ssrc, f24, json.dumps(case)))
         replay["model"], replay["spec"], replay["f24_layout"] = str(msrc), str(ssrc), f24
         if sv == "error":
             got = "error" if (impl["rc"] != 0 and "config file not found" in impl["stderr"]) else impl["got"]
@@ -718,14 +774,14 @@ def main(tier):
                                                                                          sv, ssrc)
             tags = {"part": "discovery", "cmd": case["cmd"], "explicit": str(case["explicit"]), "cwd_elsewhere": case["cwd"] is not None}
             e = ck.match_known(tags)
-            if e and got == mv:
+            if e and (mv is None or got == mv):
                 n_known += 1
                 ck.known_finding(e)
             else:
                 n_spec_bad += 1
                 if n_spec_bad <= 6:
                     ck.violation("%s %s: %s" % (case["cmd"], " ".join(impl["argv"][1:]), bad), replay)
-        if got != mv:
+        if mv is not None and got != mv:
             n_tie_bad += 1
             msg = "discovery case %d (%s): pyscn uses %s, model Cli/Discovery.v says %s (%s)" % (idx, json.dumps(case), got, mv, msrc)
             ck.notes.append(msg)
